@@ -40,7 +40,9 @@
 //!   I<id> Effect::new_isomorphic reporting | X<v>.<g>.<id> step of a user stream behind the app stream inside the body's
 //!   `Sandboxed` (reads/allocates arena items when g is fired; v=0 without an owner, v=1 under `Owner::with`) |
 //!   Y<v>.<g>.<id> the same body as a `reactive_graph::spawn` task | K<v>.<g>.<ctx>.<arena> a future the handler side polls
-//!   itself outside `Sandboxed` (v=0 a `ScopedFuture`, v=1 re-entering its owner with `Owner::with`) | Z<kind*10+trigger>.<g1>.<t>.<g2>.<sync>.<async>.<after>.<read>
+//!   itself outside `Sandboxed` (v=0 a `ScopedFuture`, v=1 re-entering its owner with `Owner::with`) |
+//!   M<g>.<id> a memo (own scope, Tag scope 50) whose body reads context, re-evaluated from a bare handler-side future |
+//!   N<v>.<g>.<id> an `on_cleanup` reading an arena handle, run by `Owner::cleanup()` (v=0) / a memo re-run (v=1) from there | Z<kind*10+trigger>.<g1>.<t>.<g2>.<sync>.<async>.<after>.<read>
 //!   a Resource/ArcResource/AsyncDerived/ArcAsyncDerived whose fetcher RE-RUNS (source set in the same render, set after t,
 //!   refetch() after t), reporting in its sync part, async part and after its await | A<g>.<id> RwSignal + StoredValue allocated in the current (child) owner and
 //!   read after awaiting g (prints v<whose signal>/<whose stored value>) |
@@ -114,6 +116,14 @@ enum P {
     /// variant 0 = `ScopedFuture::new` under the current owner, 1 = a bare future that re-enters the owner it
     /// was created under with `Owner::with`
     K(u32, u32, u32, u32),
+    /// (gate, leaf): a plain memo created under a child scope that provides its own Tag (scope 50), whose body reads
+    /// context; a bare future polled by the handler side (no owner entered, no `Sandboxed`) changes the memo's source
+    /// after the gate and reads the memo: the RE-EVALUATION must still run in the memo's own scope
+    M(u32, u32),
+    /// (variant, gate, leaf): an `on_cleanup` function that reads an arena handle, run WITHOUT the owner being
+    /// dropped, from a bare future polled by the handler side (the other request's arena may be current):
+    /// variant 0 = `Owner::cleanup()` of a child scope, 1 = the `with_cleanup` of a memo re-run
+    N(u32, u32, u32),
     /// (kind*10+trigger, g1, t, g2, sync leaf, async leaf, after-await leaf, read leaf): a resource whose fetcher
     /// RE-RUNS: kind 0 Resource, 1 ArcResource (manual dependencies), 2 AsyncDerived, 3 ArcAsyncDerived (tracked);
     /// trigger 0 = the source changes in the same synchronous render (before the task's first poll), 1 = a scoped
@@ -212,17 +222,18 @@ impl<'a> Parser<'a> {
                 let b = self.num()?;
                 P::O(v, g, a, b)
             }
-            b'T' | b'D' | b'A' => {
+            b'T' | b'D' | b'A' | b'M' => {
                 let g = self.num()?;
                 self.eat(b'.')?;
                 let a = self.num()?;
                 match c {
                     b'T' => P::T(g, a),
                     b'D' => P::D(g, a),
+                    b'M' => P::M(g, a),
                     _ => P::A(g, a),
                 }
             }
-            b'X' | b'Y' | b'K' => {
+            b'X' | b'Y' | b'K' | b'N' => {
                 let v = self.num()?;
                 if v > 1 {
                     return None;
@@ -234,6 +245,7 @@ impl<'a> Parser<'a> {
                 match c {
                     b'X' => P::X(v, g, a),
                     b'Y' => P::Y(v, g, a),
+                    b'N' => P::N(v, g, a),
                     _ => {
                         self.eat(b'.')?;
                         P::K(v, g, a, self.num()?)
@@ -301,6 +313,8 @@ fn show_prog(p: &P) -> String {
         P::X(v, g, a) => format!("X{v}.{g}.{a}"),
         P::Y(v, g, a) => format!("Y{v}.{g}.{a}"),
         P::K(v, g, a, b) => format!("K{v}.{g}.{a}.{b}"),
+        P::M(g, a) => format!("M{g}.{a}"),
+        P::N(v, g, a) => format!("N{v}.{g}.{a}"),
         P::Z(kv, g1, t, g2, a, b, c, d) => format!("Z{kv}.{g1}.{t}.{g2}.{a}.{b}.{c}.{d}"),
         P::F(n, a) => format!("F{n}.{a}"),
         P::Q(v) => format!("Q({})", v.iter().map(show_prog).collect::<Vec<_>>().join(",")),
@@ -313,7 +327,7 @@ fn gates_of(p: &P, out: &mut Vec<u32>) {
             out.push(*g);
             gates_of(c, out)
         }
-        P::R(g, _, _) | P::O(_, g, _, _) | P::T(g, _) | P::D(g, _) | P::A(g, _) | P::X(_, g, _) | P::Y(_, g, _) | P::K(_, g, _, _) => {
+        P::R(g, _, _) | P::O(_, g, _, _) | P::T(g, _) | P::D(g, _) | P::A(g, _) | P::X(_, g, _) | P::Y(_, g, _) | P::K(_, g, _, _) | P::M(g, _) | P::N(_, g, _) => {
             out.push(*g)
         }
         P::Z(_, g1, t, g2, ..) => out.extend([*g1, *t, *g2]),
@@ -649,6 +663,99 @@ fn build(p: &P, env: &Env) -> AnyView {
             })
             .into_any()
         }
+        P::M(g, id) => {
+            let (envm, g, id) = (env.clone(), *g, *id);
+            let (dtx, drx) = oneshot::channel::<()>();
+            let s = ArcRwSignal::new(0u32);
+            let scope = Owner::current().expect("owner").child();
+            let m = scope.with(|| {
+                provide_context(Tag { req: envm.me, scope: 50 });
+                let (s, envm) = (s.clone(), envm.clone());
+                let m = ArcMemo::new(move |_| {
+                    let n = s.get();
+                    report(&envm, id, true);
+                    n
+                });
+                m.get_untracked();
+                m
+            });
+            let envs = env.clone();
+            env.side.lock().unwrap().push(Box::pin(async move {
+                if let Some(rx) = take_gate(&envs, g) {
+                    let _ = rx.await;
+                }
+                // the source changes; whoever reads the memo next re-evaluates it — here a bare future at the
+                // handler's top level: no owner of this request entered, possibly another request's root current
+                s.set(1);
+                m.get_untracked();
+                drop(scope);
+                let _ = dtx.send(());
+            }));
+            Suspend::new(async move {
+                let _ = drx.await;
+                ""
+            })
+            .into_any()
+        }
+        P::N(v, g, id) => {
+            let (envn, v, g, id) = (env.clone(), *v, *g, *id);
+            let (dtx, drx) = oneshot::channel::<()>();
+            let me = envn.me;
+            let log_cleanup = move |h: RwSignal<u32>| {
+                let seen = h.try_get_untracked().map(|x| format!("a{}", x as i64 - 100)).unwrap_or("a-".into());
+                LOG.lock().unwrap().push(Rec {
+                    me,
+                    leaf: id,
+                    tag: None,
+                    sig: None,
+                    did: None,
+                    cleanup: false,
+                    arena_read: Some(seen),
+                });
+            };
+            let scope = Owner::current().expect("owner").child();
+            let s = ArcRwSignal::new(0u32);
+            let memo = if v == 1 {
+                let s = s.clone();
+                Some(scope.with(|| {
+                    let m = ArcMemo::new(move |_| {
+                        let n = s.get();
+                        // owned by this run of the memo: disposed of by the `with_cleanup` of the next run
+                        let h = RwSignal::new(100 + me);
+                        on_cleanup(move || log_cleanup(h));
+                        n
+                    });
+                    m.get_untracked();
+                    m
+                }))
+            } else {
+                scope.with(|| {
+                    let h = RwSignal::new(100 + me);
+                    on_cleanup(move || log_cleanup(h));
+                });
+                None
+            };
+            env.side.lock().unwrap().push(Box::pin(async move {
+                if let Some(rx) = take_gate(&envn, g) {
+                    let _ = rx.await;
+                }
+                // cleanup WITHOUT a drop, from the handler's top level (no `Sandboxed`, no owner entered)
+                match memo {
+                    Some(m) => {
+                        s.set(1);
+                        m.get_untracked();
+                    }
+                    None => scope.cleanup(),
+                }
+                drop(scope);
+                let _ = dtx.send(());
+            }));
+            Suspend::new(async move {
+                let _ = drx.await;
+                ""
+            })
+            .into_any()
+        }
         P::K(v, g, id, id2) => {
             let (envk, v, g, id, id2) = (env.clone(), *v, *g, *id, *id2);
             let (dtx, drx) = oneshot::channel::<()>();
@@ -713,6 +820,15 @@ fn build(p: &P, env: &Env) -> AnyView {
                     s
                 }
             };
+            // the SOURCE function of a Resource reads context too: it becomes a memo that the resource's spawned task
+            // re-evaluates at the executor's top level when the signal changed
+            let source = {
+                let (envs, src) = (env.clone(), src.clone());
+                move || {
+                    report(&envs, ls, true);
+                    src.get()
+                }
+            };
             let env = env.clone();
             macro_rules! rerun_view {
                 ($res:expr, $retrigger:expr) => {{
@@ -743,7 +859,7 @@ fn build(p: &P, env: &Env) -> AnyView {
             match kind {
                 0 => {
                     let f = fetcher.clone();
-                    rerun_view!(Resource::new(move || src.get(), move |_| f()), move |r: Resource<String>| {
+                    rerun_view!(Resource::new(source, move |_| f()), move |r: Resource<String>| {
                         if trig == 2 {
                             r.refetch()
                         } else {
@@ -753,7 +869,7 @@ fn build(p: &P, env: &Env) -> AnyView {
                 }
                 1 => {
                     let f = fetcher.clone();
-                    rerun_view!(ArcResource::new(move || src.get(), move |_| f()), move |r: ArcResource<String>| {
+                    rerun_view!(ArcResource::new(source, move |_| f()), move |r: ArcResource<String>| {
                         if trig == 2 {
                             r.refetch()
                         } else {
@@ -1419,6 +1535,12 @@ fn prog_tags(p: &P, under_async: bool, out: &mut BTreeSet<&'static str>) {
         P::K(..) => {
             out.insert("handler-side-future");
         }
+        P::M(..) => {
+            out.insert("memo-rerun");
+        }
+        P::N(..) => {
+            out.insert("cleanup-without-drop");
+        }
         P::Z(..) => {
             out.insert("resource-rerun");
         }
@@ -1435,7 +1557,7 @@ fn prog_tags(p: &P, under_async: bool, out: &mut BTreeSet<&'static str>) {
 fn exposed(p: &P, late: bool, covered: bool) -> bool {
     match p {
         P::L(_) | P::F(..) => late && !covered,
-        P::E(_) | P::C(_) | P::R(..) | P::O(..) | P::T(..) | P::D(..) | P::I(_) | P::A(..) | P::X(..) | P::Y(..) | P::Z(..) | P::K(..) => {
+        P::E(_) | P::C(_) | P::R(..) | P::O(..) | P::T(..) | P::D(..) | P::I(_) | P::A(..) | P::X(..) | P::Y(..) | P::Z(..) | P::K(..) | P::M(..) | P::N(..) => {
             false
         }
         P::V(_, c) | P::W(_, c) => exposed(c, late, true),
@@ -1450,7 +1572,7 @@ fn exposed(p: &P, late: bool, covered: bool) -> bool {
 fn late_kind(p: &P, late: bool, out: &mut BTreeSet<&'static str>) {
     match p {
         P::L(_) | P::F(..) | P::E(_) | P::C(_) | P::I(_) | P::X(..) => {}
-        P::R(..) | P::O(..) | P::T(..) | P::D(..) | P::A(..) | P::Y(..) | P::Z(..) | P::K(..) => {
+        P::R(..) | P::O(..) | P::T(..) | P::D(..) | P::A(..) | P::Y(..) | P::Z(..) | P::K(..) | P::M(..) | P::N(..) => {
             if late {
                 out.insert("late-resource");
             }
@@ -1728,7 +1850,12 @@ impl G {
             12..=13 => P::X(self.rng.below(2) as u32, self.gate(), self.leaf()),
             14 if self.rng.chance(1, 2) => P::Y(self.rng.below(2) as u32, self.gate(), self.leaf()),
             // a future the handler side polls itself, outside `Sandboxed` (own root possibly still current)
-            14 => P::K(self.rng.below(2) as u32, self.gate(), self.leaf(), self.leaf()),
+            14 => match self.rng.below(4) {
+                0..=1 => P::K(self.rng.below(2) as u32, self.gate(), self.leaf(), self.leaf()),
+                // a memo re-evaluated / a scope cleaned up (not dropped) from the handler's top level
+                2 => P::M(self.gate(), self.leaf()),
+                _ => P::N(self.rng.below(2) as u32, self.gate(), self.leaf()),
+            },
             // resources / async deriveds whose fetcher re-runs
             15..=17 => {
                 let kind = self.rng.below(4) as u32;
@@ -2013,9 +2140,13 @@ fn gen_exhaustive(out: &mut String, tier: &str) -> usize {
         ("io", "Q(U(Z11.1.2.3.4.5.6.7),X0.2.8)"),
         ("async", "Q(O2.1.2.3,S1.4.5(L6))"),
         ("io", "U(Z20.2.3.1.4.5.6.7)"),
+        ("io", "Q(S1.2.3(L4),M1.5,N0.1.6)"),
+        ("async", "Q(N1.1.2,V3(M1.3),E4)"),
     ];
     let n_pages = if tier == "thorough" { pages.len() } else { 5 };
-    for (t, (m0, page)) in pages.iter().take(n_pages).enumerate() {
+    let pick: Vec<usize> = if tier == "thorough" { (0..pages.len()).collect() } else { vec![0, 2, 3, 4, 8, 9] };
+    let _ = n_pages;
+    for (t, (m0, page)) in pick.iter().map(|&i| pages[i]).enumerate() {
         for mask in 0u32..256 {
             if mask.count_ones() != 4 {
                 continue;
